@@ -836,7 +836,8 @@ pub fn plan(tier: Tier, primary_backend: bool, slow_backend: bool) -> Plan {
             structural: vec![p128, p256, p64, p32],
             grids: vec![(p128, 24), (p256, 24), (p64, 12), (p32, 12), (pdk, 8)],
             shifts: vec![p128, p256],
-            programs: vec![(p128, 3, vec![(0xAAAA_AAAA, 0x8000_0015), (1, 0xFFFF_FFFF)]), (p256, 2, vec![(0x7FFF_FFFF, 33)])],
+            // (the depth-3 search at the suite's own N = 256 runs last, after all backends: see run())
+            programs: vec![(p128, 3, vec![(0xAAAA_AAAA, 0x8000_0015), (1, 0xFFFF_FFFF)])],
             ks_variants: vec![pdk],
         },
         // secondary backends: the quick-size enumeration of every family at the primary parameter set (the NTT120
@@ -889,6 +890,7 @@ where
 
 pub fn run(run: &mut Run) {
     run.assume("parameter set = the library test suite's (base2k 13, k_glwe 26, k_ggsw 39 / dnum 2, rank 2, BRK/ATK/TSK k=52, ks_glwe k=20, ks_lwe k=16, block-binary LWE secret of block size 7, ternary GLWE secret) with the GLWE degree N as the only variable (plus one variant of the primary set without the intermediate rank-reduction key: ks_glwe = None, ks_lwe from rank 2); n_lwe = 77 for N >= 128 and 56 / 28 for N = 64 / 32 because the library asserts n_lwe <= N");
+    run.assume("a GGSW cell counts as wrong when its distance to value * g_row * (1 | s_col) reaches max(g_row / 2, 2^-3 / (dnum * (rank+1) * N * 2^(base2k-1))): half its own gadget unit, but never less than the worst-case bound below which no CMux output bit at scale 1/4 can flip (at N = 256 the suite's last gadget row, 2^-26, is within a factor 4 of the bootstrapping noise by design of the parameters)");
     run.assume("every noise statement is a decision statement: a phase coefficient must round to the stated multiple of the encoding scale (1/4 for word bits, the gadget unit for GGSW cells); the observed worst margin is reported in the notes, not asserted");
     run.assume("circuit bootstrapping cases respect the LUT resolution the parameters admit: N / (2^(log_domain+1) * next_pow2(dnum)) >= ceil((hw+1)/2) + 2 rotation positions per half segment, hw = n_lwe / block_size (worst-case rounding of the LWE ciphertext to 2N positions plus input noise); result GGSW layouts have dnum < size; exponent mode is exercised for log_gap_out in 0..=log N - log_domain (the last value is the no-repacking branch)");
     run.assume("scratch arenas: the operation's own *_tmp_bytes companion where one exists (encrypt, decrypt, prepare, word operations), otherwise the suite's arena density (2^22 bytes at N=256); all arenas and result buffers are pre-filled with a NaN / large-pattern garbage");
@@ -916,12 +918,25 @@ pub fn run(run: &mut Run) {
     } else {
         run.note("avx", json!("host lacks AVX2/FMA: AVX backends skipped"));
     }
+    if run.tier.is_thorough() {
+        // last, so that a wall cap on a loaded host cuts only this search: all programs to depth 3 at the suite's own
+        // parameter set
+        let p256 = params_suite256();
+        let pool = Pool::<FFT64Ref>::new(&[p256]);
+        crate::c15p::fam_programs::<FFT64Ref>(run, &pool, &[(p256, 3, vec![(0x7FFF_FFFF, 33)])]);
+    }
+    eprintln!(
+        "[C15] worst observed errors relative to the decision threshold: packed word {:.4}, prepared bit through CMux {:.6}, GGSW cell {:.4}",
+        NOISE_PACKED.get(),
+        NOISE_PREPARED.get(),
+        crate::c15b::NOISE_CELL.get()
+    );
     run.note(
         "noise_margin",
         json!({
             "packed_word_worst_error_relative_to_threshold": NOISE_PACKED.get(),
             "prepared_bit_cmux_worst_error_relative_to_threshold": NOISE_PREPARED.get(),
-            "ggsw_cell_worst_error_relative_to_half_gadget_unit": crate::c15b::NOISE_CELL.get(),
+            "ggsw_cell_worst_error_relative_to_decision_threshold": crate::c15b::NOISE_CELL.get(),
         }),
     );
 }
